@@ -180,4 +180,16 @@ theorem getMap_twice (s : Src) (σ : Store) (h : s.ModeHypC) (hk : s.CachedOK) (
   rw [e2, e1]
   exact a1
 
+
+mutual
+theorem Src.strip_eraseIds : ∀ (s : Src), s.eraseIds.strip = s.strip
+  | .raw .. | .rawStr .. | .rawBuf .. | .orig .. | .sms .. => rfl
+  | .concat cs => by simp only [Src.eraseIds, Src.strip]; rw [SrcList.stripL_eraseIdsL cs]
+  | .replace inner rs => by simp only [Src.eraseIds, Src.strip]; rw [Src.strip_eraseIds inner]
+  | .cached _ inner => by simp only [Src.eraseIds, Src.strip]; exact Src.strip_eraseIds inner
+theorem SrcList.stripL_eraseIdsL : ∀ (l : SrcList), l.eraseIdsL.stripL = l.stripL
+  | .nil => rfl
+  | .cons s r => by simp only [SrcList.eraseIdsL, SrcList.stripL]; rw [Src.strip_eraseIds s, SrcList.stripL_eraseIdsL r]
+end
+
 end Rs
